@@ -36,6 +36,14 @@ static void phase(long ridx, TriggerVariable& tv, bool starts_active, uint64_t& 
     Stamps st;
     std::atomic<uint64_t> cvw{0}, timed_false{0};
     std::atomic<int> actw_done{0}, gate_passed{0};
+    // serial engine: which untimed activation waiters were already parked in their wait when activate() was invoked. Those
+    // are "already blocked on the event": the activation releases them even if a reset follows before they get to run.
+    std::atomic<int> actw_vtid[8], actw_finished[8], actw_parked_before_activation[8];
+    for (int i = 0; i < 8; i++) {
+        actw_vtid[i].store(-1);
+        actw_finished[i].store(0);
+        actw_parked_before_activation[i].store(0);
+    }
     static const int durs_ms[] = {0, 0, 1, 50, -1};
     if (starts_active) {
         st.act_call.store(1);
@@ -47,6 +55,11 @@ static void phase(long ridx, TriggerVariable& tv, bool starts_active, uint64_t& 
         if (tv.isTriggered() != was) vrf::violation("oracle:trigger_on_inactive_variable_changed_state", "{}");
         R.spawn([&] {
             for (int i = 0; i < act_delay; i++) vrf::hyield();
+            for (int w = 0; w < n_actw && w < 8; w++)
+                if (forms[static_cast<size_t>(w)] == 0 && vrf::serial_parked_in_cv_wait(actw_vtid[w].load(std::memory_order_relaxed))) {
+                    actw_parked_before_activation[w].store(1, std::memory_order_relaxed);
+                    vrf::count("activation_waiters_parked_before_activate");
+                }
             st.act_call.store(vrf::now(), std::memory_order_relaxed);
             bool ok = tv.activate();
             st.act_lock_seq.store(vrf::ctx().last_lock_seq, std::memory_order_relaxed);  // activate()'s last acquisition: the activation mutex
@@ -58,6 +71,7 @@ static void phase(long ridx, TriggerVariable& tv, bool starts_active, uint64_t& 
         R.spawn([&, i] {
             uint64_t before = vrf::stats().cv_waits;
             int form = forms[static_cast<size_t>(i)];
+            if (i < 8) actw_vtid[i].store(vrf::ctx().vtid, std::memory_order_relaxed);
             uint64_t call = vrf::now();
             bool ok = true;
             uint64_t forced0 = vrf::ctx().forced_cv_timeouts;
@@ -83,6 +97,7 @@ static void phase(long ridx, TriggerVariable& tv, bool starts_active, uint64_t& 
                     vrf::violation("oracle:timed_activation_wait_false_although_activated_before_it_gave_up", "{\"form\":" + std::to_string(form) + "}");
             }
             cvw.fetch_add(vrf::stats().cv_waits - before, std::memory_order_relaxed);
+            if (i < 8) actw_finished[i].store(1, std::memory_order_relaxed);
             actw_done.fetch_add(1, std::memory_order_relaxed);
         });
     }
@@ -136,7 +151,17 @@ static void phase(long ridx, TriggerVariable& tv, bool starts_active, uint64_t& 
             for (int i = 0; i < fin_delay / 2; i++) vrf::hyield();
             // a waiter that starts waiting for activation after the reset would (rightly) wait for the next activation:
             // the reset is issued only once the activation waiters of this cycle are through
-            vrf::spin_until([&] { return actw_done.load(std::memory_order_relaxed) == n_actw; });
+            // (a waiter that was parked in waitActivation() before activate() was invoked is not waited for: the activation
+            // has to release it whatever follows)
+            vrf::spin_until([&] {
+                for (int w = 0; w < n_actw; w++) {
+                    bool through = (w < 8) ? actw_finished[w].load(std::memory_order_relaxed) != 0 : false;
+                    bool blocked_before = (w < 8) && actw_parked_before_activation[w].load(std::memory_order_relaxed) != 0;
+                    if (w >= 8 && actw_done.load(std::memory_order_relaxed) != n_actw) return false;
+                    if (w < 8 && !through && !blocked_before) return false;
+                }
+                return true;
+            });
             // likewise a trigger waiter that has not yet seen the variable active (polling isActive / in waitActivation) would,
             // after the reset, rightly wait for the next activation
             vrf::spin_until([&] { return gate_passed.load(std::memory_order_relaxed) == n_trgw; });
